@@ -140,3 +140,96 @@ CONTRACTS = [
         witness="ops.max_by(key_mapper, comparer)",
     ),
 ]
+
+AVG = "obj:reactivex.operators._average:AverageValue(sum=val,count=nat)"
+EXT = ("c[{k}].has == s.has and implies(s.has, same(c[{k}].last_key, s.last_key)) and same(c[{k}].items, s.items) "
+       "and c[{k}].failed == s.failed")
+
+CONTRACTS += [
+    OpContract(
+        name="count", props=["C06"], file=OPS + "_count.py", func="count_",
+        call="count_(predicate)(source)", params={"predicate": "opt:callback"},
+        spec="specs.c06:count", spec_args={"n": "nat"},
+        # no predicate: c[0] = reduce(reducer, seed=0); with one: c[0] = count(), c[1] = filter(predicate)
+        inv="(c[0].has == (s.n > 0) and implies(c[0].has, same(c[0].acc, s.n)) and not c[0].failed) if len(c) == 1 else "
+            "(c[0].n == s.n and not c[0].pfailed and c[1].failed == s.pfailed)",
+        witness="ops.count(predicate)",
+    ),
+    OpContract(
+        name="sum", props=["C06"], file=OPS + "_sum.py", func="sum_",
+        call="sum_(key_mapper)(source)", params={"key_mapper": "opt:callback"},
+        spec="specs.c06:sum_", spec_args={"total": "val"},
+        # no mapper: c[0] = reduce(seed=0, accumulator=+); with one: c[0] = sum(), c[1] = map(key_mapper)
+        inv="(implies(c[0].has, same(c[0].acc, s.total)) and implies(not c[0].has, same(s.total, 0)) and c[0].failed == s.afailed) "
+            "if len(c) == 1 else "
+            "(same(c[0].total, s.total) and c[0].afailed == s.afailed and not c[0].kfailed and c[1].failed == s.kfailed)",
+        witness="ops.sum(key_mapper)",
+    ),
+    OpContract(
+        name="average", props=["C06", "C04"], file=OPS + "_average.py", func="average_",
+        call="average_(key_mapper)(source)", params={"key_mapper": "opt:callback"},
+        spec="specs.c06:average", spec_args={"total": "val", "n": "nat"},
+        # c[0] = map(mapper), c[1] = last(), c[2] = scan(accumulator, seed), c[3] = map(key_mapper_)
+        stage_args={1: {"value": AVG}, 2: {"acc": AVG}},
+        # the seed record is shared by every subscription: it must never be modified
+        cells={"seed.sum": "val", "seed.count": "int"},
+        inv="not c[0].failed and not c[1].pfailed and c[1].seen == (s.n > 0) and implies(s.n > 0, same(field(c[1].value, 'sum', 0), s.total) and field(c[1].value, 'count', 0) == s.n) "
+            "and c[2].has == (s.n > 0) and implies(s.n > 0, same(field(c[2].acc, 'sum', 0), s.total) and field(c[2].acc, 'count', 0) == s.n) "
+            "and c[2].failed == s.afailed and c[3].failed == s.kfailed and implies(s.n == 0, same(s.total, 0)) "
+            "and same(seed.sum, 0) and seed.count == 0",
+        witness="ops.average(key_mapper)",
+    ),
+    OpContract(
+        name="min_by", props=["C06"], file=OPS + "_minby.py", func="min_by_",
+        call="min_by_(key_mapper, comparer)(source)", params={"key_mapper": "callback", "comparer": "opt:callback"},
+        spec="specs.c06:min_by", inv=EXT.format(k=0),
+        witness="ops.min_by(key_mapper, comparer)",
+    ),
+    OpContract(
+        name="max_by", props=["C06"], file=OPS + "_maxby.py", func="max_by_",
+        call="max_by_(key_mapper, comparer)(source)", params={"key_mapper": "callback", "comparer": "opt:callback"},
+        spec="specs.c06:max_by", inv=EXT.format(k=0),
+        witness="ops.max_by(key_mapper, comparer)",
+    ),
+    OpContract(
+        name="min", props=["C06"], file=OPS + "_min.py", func="min_",
+        call="min_(comparer)(source)", params={"comparer": "opt:callback"},
+        spec="specs.c06:min_",
+        # c[0] = map(first_only), c[1] = min_by(identity, comparer)
+        inv="not c[0].failed and c[1].has == s.has and c[1].failed == s.failed and implies(s.has, same(c[1].last_key, s.best) "
+            "and same(c[1].items[:1], [s.best])) and (len(c[1].items) > 0) == s.has",
+        witness="ops.min(comparer)",
+    ),
+    OpContract(
+        name="max", props=["C06"], file=OPS + "_max.py", func="max_",
+        call="max_(comparer)(source)", params={"comparer": "opt:callback"},
+        spec="specs.c06:max_",
+        inv="not c[0].failed and c[1].has == s.has and c[1].failed == s.failed and implies(s.has, same(c[1].last_key, s.best) "
+            "and same(c[1].items[:1], [s.best])) and (len(c[1].items) > 0) == s.has",
+        witness="ops.max(comparer)",
+    ),
+    OpContract(
+        name="to_set", props=["C06"], file=OPS + "_toset.py", func="to_set_",
+        call="to_set_()(source)", params={},
+        spec="specs.c06:to_set", cells={"s": "setlog"}, inv="same(cell_s, s.items)",
+        witness="ops.to_set()",
+    ),
+    OpContract(
+        name="to_dict", props=["C06", "C09"], file=OPS + "_todict.py", func="to_dict_",
+        call="to_dict_(key_mapper, element_mapper)(source)", params={"key_mapper": "callback", "element_mapper": "opt:callback"},
+        spec="specs.c06:to_dict", cells={"m": "dictlog"}, inv="same(m, s.d)",
+        witness="ops.to_dict(key_mapper, element_mapper)",
+    ),
+    OpContract(
+        name="sequence_equal", props=["C06"], file=OPS + "_sequenceequal.py", func="sequence_equal_",
+        call="sequence_equal_(second, comparer)(source)", params={"comparer": "opt:callback", "n": "const:2"},
+        sources=("source", "second"),
+        spec="specs.c06:sequence_equal",
+        cells={"donel": "cell:bool", "doner": "cell:bool", "ql": "seq", "qr": "seq"},
+        spec_args={"q": "list:seq", "done_": "list:bool", "term": "bool"},
+        # at most one side has unmatched elements
+        inv="same(ql, s.q[0]) and same(qr, s.q[1]) and donel[0] == s.done_[0] and doner[0] == s.done_[1] "
+            "and (len(ql) == 0 or len(qr) == 0)",
+        witness="source.pipe(ops.sequence_equal(second, comparer))",
+    ),
+]
